@@ -17,7 +17,20 @@
 //!   (exec WHICH J)                 body J decoded by `receive_batch_body`, executed by
 //!                                  `Schema::execute_batch` (WHICH = schema) or the `Executor` trait's
 //!                                  provided method (WHICH = executor) on an echo schema
+//! Byte-level cases (stream `bytes`): the transport payload is given as bytes ("hex" = two hex digits per
+//! byte); TABLE = (("json text" J)…) lists the JSON texts that matter for the case and the trees they
+//! denote (Lean side only, like the J of a get pair: the JSON text grammar is library behaviour).
+//!   (bdoc CT HDRS "hex" TABLE)     the SAME bytes B through three transports: as the body with content type
+//!                                  CT (none | "type/subtype; params"); as the second element of the batch
+//!                                  `[{"query":"0"},B]`; as the `operations` part (extra part headers HDRS =
+//!                                  (("Name" "value")…), e.g. Content-Type with a charset parameter,
+//!                                  Content-Transfer-Encoding) of a multipart body with the map part `{}`
+//!   (bmultipart (BPART…) TABLE)    BPART = (opsb HDRS "hex") | (mapb HDRS "hex") | (fieldb "name" "hex")
+//!   (bget STYLE (("khex" "vhex")…) TABLE)   query string whose keys/values percent-decode to these bytes
+//!                                  (STYLE all = every byte %XX, min = only the bytes that need it)
 //! Output
+//!   bdoc:               (doc BOTH BOTH BOTH)   (body, batch element, operations part), BOTH as below
+//!   bmultipart:         (both B S);   bget: as get
 //!   get:                (ok REQ) | (err query-string|variables|extensions)
 //!   json/multipart/...: (both B S)   B = (single REQ) | (batch REQ…) | (err KIND), S = (ok REQ) | (err KIND)
 //!   exec:               (single RESP) | (batch RESP…) | (err KIND)    RESP = (data J) | (errors)
@@ -301,6 +314,99 @@ fn build_multipart(parts: &[Sexp]) -> Option<(String, Vec<u8>)> {
     Some((boundary, body))
 }
 
+fn get_out(r: Result<Request, ParseRequestError>) -> Sexp {
+    match r {
+        Ok(r) => node("ok", vec![req_sexp(&r)]),
+        Err(ParseRequestError::Io(e)) => {
+            let m = e.to_string();
+            if m.starts_with("invalid variables") {
+                err("variables")
+            } else if m.starts_with("invalid extensions") {
+                err("extensions")
+            } else {
+                err("query-string")
+            }
+        }
+        Err(e) => err(err_kind(&e)),
+    }
+}
+
+// ------------------------------------------------------------------ byte-level transports
+
+/// the first element of the batch a `bdoc` case wraps its bytes into
+const BATCH_PREFIX: &str = "[{\"query\":\"0\"},";
+
+fn hex(b: &[u8]) -> String {
+    b.iter().map(|x| format!("{:02x}", x)).collect()
+}
+
+fn unhex(s: &str) -> Option<Vec<u8>> {
+    let b = s.as_bytes();
+    if b.len() % 2 != 0 {
+        return None;
+    }
+    (0..b.len() / 2).map(|i| u8::from_str_radix(std::str::from_utf8(&b[2 * i..2 * i + 2]).ok()?, 16).ok()).collect()
+}
+
+fn hdrs_of(s: &Sexp) -> Option<Vec<(String, String)>> {
+    s.as_list()?
+        .iter()
+        .map(|h| {
+            let h = h.as_list()?;
+            Some((h.first()?.as_str()?.to_string(), h.get(1)?.as_str()?.to_string()))
+        })
+        .collect()
+}
+
+/// percent-encoding of raw bytes: every byte, or only those outside the unreserved set
+fn pct_bytes(b: &[u8], all: bool) -> String {
+    let mut o = String::new();
+    for &x in b {
+        if !all && (x.is_ascii_alphanumeric() || matches!(x, b'-' | b'.' | b'_' | b'~' | b'*')) {
+            o.push(x as char);
+        } else if !all && x == b' ' {
+            o.push('+');
+        } else {
+            o.push_str(&format!("%{:02X}", x));
+        }
+    }
+    o
+}
+
+struct BField {
+    name: String,
+    hdrs: Vec<(String, String)>,
+    content: Vec<u8>,
+}
+
+fn contains_bytes(hay: &[u8], needle: &[u8]) -> bool {
+    hay.windows(needle.len()).any(|w| w == needle)
+}
+
+fn build_multipart_bytes(fields: &[BField]) -> (String, Vec<u8>) {
+    let mut n = 0;
+    let boundary = loop {
+        let b = format!("----agvC23b{n}");
+        if fields.iter().all(|f| !contains_bytes(&f.content, b.as_bytes()) && !f.name.contains(&b)) {
+            break b;
+        }
+        n += 1;
+    };
+    let mut body: Vec<u8> = vec![];
+    for f in fields {
+        body.extend_from_slice(format!("--{boundary}\r\n").as_bytes());
+        body.extend_from_slice(format!("Content-Disposition: form-data; name=\"{}\"\r\n", f.name).as_bytes());
+        for (k, v) in &f.hdrs {
+            body.extend_from_slice(format!("{k}: {v}\r\n").as_bytes());
+        }
+        body.extend_from_slice(b"\r\n");
+        body.extend_from_slice(&f.content);
+        body.extend_from_slice(b"\r\n");
+    }
+    body.extend_from_slice(format!("--{boundary}--\r\n").as_bytes());
+    (boundary, body)
+}
+
 fn run(case: &Sexp, _dist: &mut Dist) -> Sexp {
     let bad = || node("bad-case", vec![]);
     let a = case.args();
@@ -324,20 +430,7 @@ fn run(case: &Sexp, _dist: &mut Dist) -> Sexp {
                 "all" => kv.iter().map(|(k, v)| format!("{}={}", pct_all(k), pct_all(v))).collect::<Vec<_>>().join("&"),
                 _ => return bad(),
             };
-            match parse_query_string(&qs) {
-                Ok(r) => node("ok", vec![req_sexp(&r)]),
-                Err(ParseRequestError::Io(e)) => {
-                    let m = e.to_string();
-                    if m.starts_with("invalid variables") {
-                        err("variables")
-                    } else if m.starts_with("invalid extensions") {
-                        err("extensions")
-                    } else {
-                        err("query-string")
-                    }
-                }
-                Err(e) => err(err_kind(&e)),
-            }
+            get_out(parse_query_string(&qs))
         }
         Some("json") => {
             let (Some(ct), Some(fmt), Some(j)) =
@@ -387,6 +480,94 @@ fn run(case: &Sexp, _dist: &mut Dist) -> Sexp {
                 BatchResponse::Single(r) => node("single", vec![resp_sexp(r)]),
                 BatchResponse::Batch(rs) => node("batch", rs.iter().map(resp_sexp).collect()),
             }
+        }
+        Some("bdoc") => {
+            let (Some(ct), Some(hdrs), Some(bytes)) =
+                (a.first(), a.get(1).and_then(hdrs_of), a.get(2).and_then(|s| s.as_str()).and_then(unhex))
+            else {
+                return bad();
+            };
+            let ct: Option<String> = match ct {
+                Sexp::Atom(x) if x == "none" => None,
+                other => match other.as_str() {
+                    Some(t) => Some(t.to_string()),
+                    None => return bad(),
+                },
+            };
+            let body = both(ct.as_deref(), &bytes);
+            let mut wrapped = BATCH_PREFIX.as_bytes().to_vec();
+            wrapped.extend_from_slice(&bytes);
+            wrapped.push(b']');
+            let elem = both(ct.as_deref(), &wrapped);
+            let parts = vec![
+                BField { name: "operations".into(), hdrs, content: bytes },
+                BField { name: "map".into(), hdrs: vec![], content: b"{}".to_vec() },
+            ];
+            let (boundary, mp) = build_multipart_bytes(&parts);
+            let part = both(Some(&format!("multipart/form-data; boundary={boundary}")), &mp);
+            node("doc", vec![body, elem, part])
+        }
+        Some("bmultipart") => {
+            let Some(ps) = a.first().and_then(|s| s.as_list()) else { return bad() };
+            let mut parts = vec![];
+            for p in ps {
+                let x = p.args();
+                let f = match p.tag() {
+                    Some("opsb") | Some("mapb") => {
+                        let (Some(hdrs), Some(content)) =
+                            (x.first().and_then(hdrs_of), x.get(1).and_then(|s| s.as_str()).and_then(unhex))
+                        else {
+                            return bad();
+                        };
+                        BField { name: if p.tag() == Some("opsb") { "operations".into() } else { "map".into() }, hdrs, content }
+                    }
+                    Some("fieldb") => {
+                        let (Some(name), Some(content)) =
+                            (x.first().and_then(|s| s.as_str()), x.get(1).and_then(|s| s.as_str()).and_then(unhex))
+                        else {
+                            return bad();
+                        };
+                        BField { name: name.to_string(), hdrs: vec![], content }
+                    }
+                    _ => return bad(),
+                };
+                parts.push(f);
+            }
+            let (boundary, mp) = build_multipart_bytes(&parts);
+            both(Some(&format!("multipart/form-data; boundary={boundary}")), &mp)
+        }
+        Some("bget") => {
+            let (Some(style), Some(pairs)) = (a.first().and_then(|s| s.as_atom()), a.get(1).and_then(|s| s.as_list()))
+            else {
+                return bad();
+            };
+            let mut qs = String::new();
+            for (i, p) in pairs.iter().enumerate() {
+                let Some(p) = p.as_list() else { return bad() };
+                let (Some(k), Some(v)) = (
+                    p.first().and_then(|s| s.as_str()).and_then(unhex),
+                    p.get(1).and_then(|s| s.as_str()).and_then(unhex),
+                ) else {
+                    return bad();
+                };
+                if i > 0 {
+                    qs.push('&');
+                }
+                match style {
+                    "all" => {
+                        qs.push_str(&pct_bytes(&k, true));
+                        qs.push('=');
+                        qs.push_str(&pct_bytes(&v, true));
+                    }
+                    "min" => {
+                        qs.push_str(&pct_bytes(&k, false));
+                        qs.push('=');
+                        qs.push_str(&pct_bytes(&v, false));
+                    }
+                    _ => return bad(),
+                }
+            }
+            get_out(parse_query_string(&qs))
         }
         _ => bad(),
     }
@@ -708,7 +889,470 @@ fn echo_req(rng: &mut Rng, i: usize, n: usize) -> J {
     J::Obj(m)
 }
 
-fn gen_case(rng: &mut Rng, _i: usize, _o: &Opts, dist: &mut Dist) -> Sexp {
+// ------------------------------------------------------------------ generator of the stream `bytes`
+
+/// where the payload bytes go: the text of the request is produced with this private-use character in
+/// one of its strings, whose UTF-8 form is then replaced by the payload
+const MARK: char = '\u{E000}';
+const MARK_BYTES: &[u8] = &[0xEE, 0x80, 0x80];
+
+/// (name, bytes): v_ valid UTF-8 that may stand raw in a JSON string; c_ valid UTF-8 with a control
+/// character (legal in a GET value, not raw in a JSON string); i_ not UTF-8
+const PAYLOADS: &[(&str, &[u8])] = &[
+    ("v_ascii", b"x"),
+    ("v_del", &[0x7F]),
+    ("v_2min", &[0xC2, 0x80]),
+    ("v_2", &[0xC3, 0xA9]),
+    ("v_2max", &[0xDF, 0xBF]),
+    ("v_3min", &[0xE0, 0xA0, 0x80]),
+    ("v_3", &[0xE4, 0xB8, 0xAD]),
+    ("v_d7ff", &[0xED, 0x9F, 0xBF]),
+    ("v_e001", &[0xEE, 0x80, 0x81]),
+    ("v_bom_inside", &[0xEF, 0xBB, 0xBF]),
+    ("v_fffd", &[0xEF, 0xBF, 0xBD]),
+    ("v_ffff", &[0xEF, 0xBF, 0xBF]),
+    ("v_4min", &[0xF0, 0x90, 0x80, 0x80]),
+    ("v_4", &[0xF0, 0x9F, 0x98, 0x80]),
+    ("v_max", &[0xF4, 0x8F, 0xBF, 0xBF]),
+    ("c_nul", &[0x00]),
+    ("c_nul_mid", &[0x61, 0x00, 0x62]),
+    ("c_1f", &[0x1F]),
+    ("i_ff", &[0xFF]),
+    ("i_fe", &[0xFE]),
+    ("i_bom16le", &[0xFF, 0xFE]),
+    ("i_bom16be", &[0xFE, 0xFF]),
+    ("i_overlong2_nul", &[0xC0, 0x80]),
+    ("i_overlong2", &[0xC1, 0xBF]),
+    ("i_overlong3", &[0xE0, 0x80, 0x80]),
+    ("i_overlong3_max", &[0xE0, 0x9F, 0xBF]),
+    ("i_overlong4", &[0xF0, 0x80, 0x80, 0x80]),
+    ("i_overlong4_max", &[0xF0, 0x8F, 0xBF, 0xBF]),
+    ("i_cont", &[0x80]),
+    ("i_cont2", &[0xBF, 0xBF]),
+    ("i_trunc2", &[0xC3]),
+    ("i_trunc3a", &[0xE4]),
+    ("i_trunc3b", &[0xE4, 0xB8]),
+    ("i_trunc4a", &[0xF0]),
+    ("i_trunc4b", &[0xF0, 0x9F]),
+    ("i_trunc4c", &[0xF0, 0x9F, 0x98]),
+    ("i_surrogate_hi", &[0xED, 0xA0, 0x80]),
+    ("i_surrogate_lo", &[0xED, 0xBF, 0xBF]),
+    ("i_cesu_pair", &[0xED, 0xA0, 0xBD, 0xED, 0xB8, 0x80]),
+    ("i_above_max", &[0xF4, 0x90, 0x80, 0x80]),
+    ("i_f5", &[0xF5, 0x80, 0x80, 0x80]),
+    ("i_5byte", &[0xF8, 0x88, 0x80, 0x80, 0x80]),
+    ("i_latin1_e9", &[0xE9]),
+    ("i_valid_ff_valid", &[0xC3, 0xA9, 0xFF, 0xC3, 0xA9]),
+];
+
+/// bytes a random payload is made of (boundaries of the UTF-8 ranges; never `"` or `\`)
+const RAND_BYTES: &[u8] = &[
+    0x00, 0x1F, 0x20, 0x41, 0x7F, 0x80, 0x8F, 0x90, 0x9F, 0xA0, 0xBF, 0xC0, 0xC1, 0xC2, 0xC3, 0xDF, 0xE0, 0xE1, 0xEC, 0xED,
+    0xEE, 0xEF, 0xF0, 0xF1, 0xF3, 0xF4, 0xF5, 0xF8, 0xFF,
+];
+
+fn rand_payload(rng: &mut Rng, dist: &mut Dist) -> Vec<u8> {
+    let x: Vec<u8> = if rng.chance(1, 5) {
+        let n = 1 + rng.below(5);
+        (0..n).map(|_| *rng.pick(RAND_BYTES)).collect()
+    } else {
+        // half of the named payloads are well-formed
+        let want = match rng.below(10) {
+            0..=4 => "v_",
+            5 => "c_",
+            _ => "i_",
+        };
+        let (name, b) = loop {
+            let p = *rng.pick(PAYLOADS);
+            if p.0.starts_with(want) {
+                break p;
+            }
+        };
+        dist.hit(&format!("payload_{name}"));
+        b.to_vec()
+    };
+    dist.hit(match std::str::from_utf8(&x) {
+        Ok(t) if json_plain(t) => "payload_class_valid_plain",
+        Ok(_) => "payload_class_valid_control",
+        Err(_) => "payload_class_invalid_utf8",
+    });
+    x
+}
+
+/// may this text stand raw between the quotes of a JSON string
+fn json_plain(t: &str) -> bool {
+    t.chars().all(|c| c >= ' ' && c != '"' && c != '\\')
+}
+
+fn subst_str(s: &str, with: &str) -> String {
+    s.replace(MARK, with)
+}
+
+fn subst_j(j: &J, with: &str) -> J {
+    match j {
+        J::Str(s) => J::Str(subst_str(s, with)),
+        J::Arr(xs) => J::Arr(xs.iter().map(|x| subst_j(x, with)).collect()),
+        J::Obj(kvs) => J::Obj(kvs.iter().map(|(k, v)| (subst_str(k, with), subst_j(v, with))).collect()),
+        other => other.clone(),
+    }
+}
+
+fn subst_bytes(text: &str, with: &[u8]) -> Vec<u8> {
+    let b = text.as_bytes();
+    let mut o = vec![];
+    let mut i = 0;
+    while i < b.len() {
+        if b[i..].starts_with(MARK_BYTES) {
+            o.extend_from_slice(with);
+            i += MARK_BYTES.len();
+        } else {
+            o.push(b[i]);
+            i += 1;
+        }
+    }
+    o
+}
+
+fn insert_mark(rng: &mut Rng, s: &str) -> String {
+    let cs: Vec<char> = s.chars().collect();
+    let at = rng.below(cs.len() + 1);
+    let mut o: String = cs[..at].iter().collect();
+    o.push(MARK);
+    o.extend(cs[at..].iter());
+    o
+}
+
+/// a request with the marker in one of its strings (or nowhere: `site_none`)
+fn rand_marked_req(rng: &mut Rng, dist: &mut Dist) -> Rq {
+    let mut r = rand_req(rng, dist);
+    // the marker must be the generator's only private-use character
+    let k = rng.below(16);
+    match k {
+        0..=3 => {
+            dist.hit("site_query");
+            r.query = insert_mark(rng, &r.query);
+        }
+        4..=6 => {
+            dist.hit("site_operation_name");
+            r.op = Some(insert_mark(rng, r.op.as_deref().unwrap_or("")));
+        }
+        7..=9 => {
+            dist.hit("site_variable_value");
+            let t = rand_text(rng, 2);
+            let v = insert_mark(rng, &t);
+            let at = rng.below(r.vars.len() + 1);
+            r.vars.insert(at, ("s".into(), if rng.chance(1, 3) { J::Arr(vec![J::Null, J::Str(v)]) } else { J::Str(v) }));
+        }
+        10 | 11 => {
+            dist.hit("site_variable_key");
+            let t = rand_text(rng, 2);
+            let key = insert_mark(rng, &t);
+            r.vars.push((key, J::Int(1)));
+        }
+        12 | 13 => {
+            dist.hit("site_extension_value");
+            let t = rand_text(rng, 2);
+            let v = insert_mark(rng, &t);
+            r.exts.push(("e".into(), J::Obj(vec![("k".into(), J::Str(v))])));
+        }
+        _ => dist.hit("site_none"),
+    }
+    r
+}
+
+fn table_sexp(t: &[(String, J)]) -> Sexp {
+    let mut seen: Vec<&String> = vec![];
+    let mut xs = vec![];
+    for (text, j) in t {
+        if !seen.contains(&text) {
+            seen.push(text);
+            xs.push(list(vec![st(text.clone()), j_to_sexp(j)]));
+        }
+    }
+    list(xs)
+}
+
+fn hdr_sexp(h: &[(String, String)]) -> Sexp {
+    list(h.iter().map(|(k, v)| list(vec![st(k.clone()), st(v.clone())])).collect())
+}
+
+const PART_TYPES: &[&str] = &[
+    "application/json",
+    "application/json; charset=utf-8",
+    "application/json; charset=UTF-8",
+    "application/json; charset=iso-8859-1",
+    "application/json; charset=latin1",
+    "application/json; charset=windows-1252",
+    "application/json; charset=utf-16",
+    "application/json; charset=utf-16le",
+    "application/json; charset=utf-16be",
+    "application/json; charset=us-ascii",
+    "application/json; charset=shift_jis",
+    "application/json; charset=x-unknown",
+    "application/json; charset=\"iso-8859-1\"",
+    "text/plain; charset=iso-8859-1",
+    "application/graphql-response+json; charset=utf-16",
+    "application/octet-stream",
+];
+
+const TRANSFER_ENCODINGS: &[&str] = &["base64", "quoted-printable", "8bit", "7bit", "binary", "x-unknown"];
+
+fn rand_part_headers(rng: &mut Rng, dist: &mut Dist) -> Vec<(String, String)> {
+    let mut h = vec![];
+    if rng.chance(3, 4) {
+        let t = *rng.pick(PART_TYPES);
+        if t.contains("charset") {
+            dist.hit("part_content_type_with_charset");
+        }
+        h.push(((*rng.pick(&["Content-Type", "content-type", "CONTENT-TYPE"])).to_string(), t.to_string()));
+    }
+    if rng.chance(1, 4) {
+        dist.hit("part_content_transfer_encoding");
+        h.push(("Content-Transfer-Encoding".to_string(), (*rng.pick(TRANSFER_ENCODINGS)).to_string()));
+    }
+    rng.shuffle(&mut h);
+    h
+}
+
+fn utf16(text: &str, le: bool, bom: bool) -> Vec<u8> {
+    let mut o = vec![];
+    let mut put = |u: u16| {
+        if le {
+            o.extend_from_slice(&u.to_le_bytes())
+        } else {
+            o.extend_from_slice(&u.to_be_bytes())
+        }
+    };
+    if bom {
+        put(0xFEFF);
+    }
+    for u in text.encode_utf16() {
+        put(u);
+    }
+    o
+}
+
+/// document-level changes of the bytes `b` of the JSON text `text`
+fn perturb_doc(rng: &mut Rng, dist: &mut Dist, text: &str, b: Vec<u8>) -> Vec<u8> {
+    let k = rng.below(24);
+    let cat = |x: &[u8], y: &[u8]| [x, y].concat();
+    let (name, out): (&str, Vec<u8>) = match k {
+        0 | 1 => ("doc_bom_utf8_prefix", cat(&[0xEF, 0xBB, 0xBF], &b)),
+        2 => ("doc_bom_utf16le_prefix", cat(&[0xFF, 0xFE], &b)),
+        3 => ("doc_bom_utf16be_prefix", cat(&[0xFE, 0xFF], &b)),
+        4 => ("doc_bom_utf8_suffix", cat(&b, &[0xEF, 0xBB, 0xBF])),
+        5 => ("doc_nul_prefix", cat(&[0x00], &b)),
+        6 => ("doc_nul_suffix", cat(&b, &[0x00])),
+        7 => ("doc_utf16le_bom", utf16(text, true, true)),
+        8 => ("doc_utf16be_bom", utf16(text, false, true)),
+        9 => ("doc_utf16le", utf16(text, true, false)),
+        10 | 12 | 13 => {
+            // every character as one byte, as a Latin-1 writer would send it (characters outside
+            // Latin-1 become `?`)
+            ("doc_latin1", text.chars().map(|c| if (c as u32) < 0x100 { c as u32 as u8 } else { b'?' }).collect())
+        }
+        11 => ("doc_bom_after_space", cat(&[0x20, 0xEF, 0xBB, 0xBF], &b)),
+        _ => ("doc_plain", b.clone()),
+    };
+    // the table of the case only knows the unperturbed text: keep a perturbation only when its bytes
+    // are not, by accident, another JSON text
+    if out != b
+        && let Ok(t) = std::str::from_utf8(&out)
+        && serde_json::from_str::<serde_json::Value>(t).is_ok()
+    {
+        dist.hit("doc_perturbation_dropped");
+        dist.hit("doc_plain");
+        return b;
+    }
+    dist.hit(name);
+    out
+}
+
+/// (bytes, table) of a request document with a payload and possibly a document-level change
+fn rand_doc_bytes(rng: &mut Rng, dist: &mut Dist) -> (Vec<u8>, Vec<(String, J)>) {
+    let r = rand_marked_req(rng, dist);
+    let doc = if rng.chance(1, 6) {
+        dist.hit("doc_is_batch");
+        J::Arr(vec![encode_json(&rand_req(rng, dist), rng, dist), encode_json(&r, rng, dist)])
+    } else if rng.chance(1, 10) {
+        dist.hit("doc_is_malformed");
+        malform_json(&r, rng, dist)
+    } else {
+        encode_json(&r, rng, dist)
+    };
+    let x = rand_payload(rng, dist);
+    let text = text_of(&doc, rng.chance(1, 5));
+    let b = subst_bytes(&text, &x);
+    let mut table = vec![];
+    let mut plain_text = None;
+    if !text.contains(MARK) {
+        // no payload site in this document: the payload is not sent
+        table.push((text.clone(), doc.clone()));
+        plain_text = Some(text.clone());
+    } else if let Ok(xt) = std::str::from_utf8(&x)
+        && json_plain(xt)
+    {
+        let t = subst_str(&text, xt);
+        table.push((t.clone(), subst_j(&doc, xt)));
+        plain_text = Some(t);
+    }
+    let b = match &plain_text {
+        Some(t) => perturb_doc(rng, dist, t, b),
+        // without a text (payload not UTF-8 / not plain) only byte-level changes
+        None => match rng.below(12) {
+            0 => {
+                dist.hit("doc_bom_utf8_prefix");
+                [&[0xEF, 0xBB, 0xBF][..], &b].concat()
+            }
+            _ => {
+                dist.hit("doc_plain");
+                b
+            }
+        },
+    };
+    (b, table)
+}
+
+const BODY_TYPES: &[&str] = &[
+    "application/json",
+    "application/json; charset=utf-8",
+    "application/json; charset=iso-8859-1",
+    "application/json; charset=utf-16",
+    "application/graphql-response+json; charset=utf-8",
+    "text/plain; charset=us-ascii",
+];
+
+fn json_text_entry(j: &J) -> (String, J) {
+    (text_of(j, false), j.clone())
+}
+
+fn gen_bytes_case(rng: &mut Rng, dist: &mut Dist) -> Sexp {
+    let k = rng.below(100);
+    match k {
+        0..=54 => {
+            dist.hit("kind_bdoc");
+            let (b, table) = rand_doc_bytes(rng, dist);
+            let ct = if rng.chance(1, 3) { atom("none") } else { st(*rng.pick(BODY_TYPES)) };
+            let hdrs = rand_part_headers(rng, dist);
+            if !b.is_ascii() {
+                dist.hit("bdoc_non_ascii_bytes");
+                if hdrs.iter().any(|h| h.1.contains("charset")) {
+                    dist.hit("bdoc_non_ascii_bytes_and_part_charset");
+                }
+            }
+            node("bdoc", vec![ct, hdr_sexp(&hdrs), st(hex(&b)), table_sexp(&table)])
+        }
+        55..=74 => {
+            dist.hit("kind_bmultipart");
+            let (b, mut table) = rand_doc_bytes(rng, dist);
+            let ops = node("opsb", vec![hdr_sexp(&rand_part_headers(rng, dist)), st(hex(&b))]);
+            // the map part: `{}`, an entry without file, wrong shapes, each possibly with a payload / BOM
+            let x = rand_payload(rng, dist);
+            let xt = std::str::from_utf8(&x).ok().filter(|t| json_plain(t));
+            let marked: J = match rng.below(8) {
+                0 | 1 | 2 => J::Obj(vec![]),
+                3 => J::Obj(vec![(format!("0{MARK}"), J::Arr(vec![J::Str("variables.f".into())]))]),
+                4 => J::Obj(vec![("0".into(), J::Arr(vec![J::Str(format!("variables.{MARK}"))]))]),
+                5 => J::Obj(vec![("0".into(), J::Arr(vec![])), ("0".into(), J::Arr(vec![J::Str("a".into())]))]),
+                6 => (*rng.pick(&[J::Arr(vec![]), J::Null, J::Obj(vec![("a".into(), J::Int(1))]), J::Obj(vec![("a".into(), J::Arr(vec![J::Null]))]), J::Str("{}".into())])).clone(),
+                _ => J::Obj(vec![("a".into(), J::Str(format!("{MARK}")))]),
+            };
+            let mtext = text_of(&marked, false);
+            let mut mb = subst_bytes(&mtext, &x);
+            if !mtext.contains(MARK) {
+                table.push((mtext.clone(), marked.clone()));
+            } else if let Some(xt) = xt {
+                table.push((subst_str(&mtext, xt), subst_j(&marked, xt)));
+            }
+            match rng.below(10) {
+                0 => {
+                    dist.hit("map_bom_prefix");
+                    mb = [&[0xEF, 0xBB, 0xBF][..], &mb].concat();
+                }
+                1 => {
+                    dist.hit("map_invalid_suffix");
+                    mb.push(0xFF);
+                }
+                2 => {
+                    dist.hit("map_utf16");
+                    mb = utf16(&String::from_utf8_lossy(&mb), true, true);
+                }
+                _ => {}
+            }
+            let map = node("mapb", vec![hdr_sexp(&rand_part_headers(rng, dist)), st(hex(&mb))]);
+            let mut parts = vec![ops, map];
+            if rng.chance(1, 5) {
+                dist.hit("bmultipart_extra_field");
+                let n = rng.below(4);
+                let junk: Vec<u8> = (0..n).map(|_| *rng.pick(RAND_BYTES)).collect();
+                parts.push(node("fieldb", vec![st("note"), st(hex(&junk))]));
+            }
+            rng.shuffle(&mut parts);
+            node("bmultipart", vec![list(parts), table_sexp(&table)])
+        }
+        _ => {
+            dist.hit("kind_bget");
+            let r = rand_marked_req(rng, dist);
+            let x = rand_payload(rng, dist);
+            let strict = std::str::from_utf8(&x).ok().map(|t| t.to_string());
+            let lossy = String::from_utf8_lossy(&x).to_string();
+            if strict.is_none() {
+                dist.hit("bget_invalid_utf8");
+            }
+            let mut table: Vec<(String, J)> = vec![];
+            let mut pairs: Vec<(Vec<u8>, Vec<u8>)> = vec![];
+            if !(r.query.is_empty() && rng.chance(1, 2)) {
+                pairs.push((b"query".to_vec(), subst_bytes(&r.query, &x)));
+            }
+            if let Some(op) = &r.op {
+                pairs.push((b"operationName".to_vec(), subst_bytes(op, &x)));
+            }
+            for (key, val) in [("variables", &r.vars), ("extensions", &r.exts)] {
+                if val.is_empty() && rng.chance(1, 2) {
+                    continue;
+                }
+                let j = J::Obj(val.clone());
+                let text = text_of(&j, rng.chance(1, 4));
+                let mut vb = subst_bytes(&text, &x);
+                for t in strict.iter().chain(std::iter::once(&lossy)) {
+                    if json_plain(t) || !text.contains(MARK) {
+                        table.push((subst_str(&text, t), subst_j(&j, t)));
+                    }
+                }
+                if rng.chance(1, 12) {
+                    dist.hit("bget_value_bom_prefix");
+                    vb = [&[0xEF, 0xBB, 0xBF][..], &vb].concat();
+                }
+                pairs.push((key.as_bytes().to_vec(), vb));
+            }
+            match rng.below(8) {
+                0 => {
+                    dist.hit("bget_unknown_key_with_payload");
+                    pairs.push(([b"k", &x[..]].concat(), b"1".to_vec()));
+                }
+                1 => {
+                    dist.hit("bget_unknown_key_value_payload");
+                    pairs.push((b"id".to_vec(), x.clone()));
+                }
+                2 => {
+                    dist.hit("bget_known_key_behind_bom");
+                    pairs.push(([&[0xEF, 0xBB, 0xBF][..], b"query"].concat(), b"{ hidden }".to_vec()));
+                }
+                _ => {}
+            }
+            rng.shuffle(&mut pairs);
+            let style = if rng.chance(1, 3) { "all" } else { "min" };
+            let ps = pairs.iter().map(|(k, v)| list(vec![st(hex(k)), st(hex(v))])).collect();
+            let _ = json_text_entry;
+            node("bget", vec![atom(style), list(ps), table_sexp(&table)])
+        }
+    }
+}
+
+fn gen_case(rng: &mut Rng, _i: usize, o: &Opts, dist: &mut Dist) -> Sexp {
+    if o.stream == "bytes" {
+        return gen_bytes_case(rng, dist);
+    }
     let r = rand_req(rng, dist);
     let ct = |rng: &mut Rng| atom(*rng.pick(&["none", "json", "gql", "text"]));
     let fmt = |rng: &mut Rng| atom(if rng.chance(1, 4) { "spaced" } else { "compact" });
